@@ -11,6 +11,8 @@ pub mod c10;
 pub mod c11;
 pub mod c12;
 pub mod c14;
+pub mod c18;
+pub mod c19;
 pub mod common;
 
 use crate::engine::*;
@@ -30,6 +32,8 @@ pub fn run(ctx: &RunCtx) -> i32 {
         "C11" => c11::run(ctx),
         "C12" => c12::prop().run(ctx),
         "C14" => c14::run(ctx),
+        "C18" => c18::run(ctx),
+        "C19" => c19::run(ctx),
         other => {
             eprintln!("unknown property {}", other);
             2
@@ -52,6 +56,8 @@ pub fn replay(id: &str, v: &serde_json::Value) -> CaseResult {
         "C11" => c11::replay(v),
         "C12" => c12::prop().replay(v),
         "C14" => c14::replay(v),
+        "C18" => c18::replay(v),
+        "C19" => c19::replay(v),
         _ => Err(Failure { message: format!("unknown property '{}' in replay file", id), replay: v.clone() }),
     }
 }
